@@ -32,6 +32,11 @@ def spline_params(rng, zlo, zhi, n_sy=None, n_t=None, oscillating=False):
         f = sym.SplineSpecificYield(list(zk), list(vals))
         if float(np.min(f(np.linspace(zk[0], zk[-1], 400)))) > 0.02:
             break
+    if rng.random() < 0.3:
+        # values as a person types them: some knots and values are whole numbers (YAML ints)
+        zk = [int(round(z)) if rng.random() < 0.5 else z for z in zk]
+        zk = sorted(set(zk), key=float)
+        vals = (vals + [vals[-1]] * len(zk))[:len(zk)]
     if oscillating:
         # any parameter values: a cubic through alternating knots undershoots below zero between them
         # (step-like knot values: the interpolating cubic rings around each step)
@@ -46,7 +51,8 @@ def spline_params(rng, zlo, zhi, n_sy=None, n_t=None, oscillating=False):
                            "sy_knots": vals},
         "transmissivity": {"type": "spline", "zeta_knots_mm": tk,
                            "K_knots_km_d": [float("%.4g" % (10 ** rng.uniform(-3, 3))) for _ in tk],
-                           "minimum_transmissivity_m2_d": float("%.4g" % (10 ** rng.uniform(-1, 1)))},
+                           "minimum_transmissivity_m2_d": (rng.randint(1, 9) if rng.random() < 0.3
+                                                           else float("%.4g" % (10 ** rng.uniform(-1, 1))))},
     }
 
 
